@@ -301,7 +301,8 @@ def r_writeback(ctx: RuleCtx, col: Collector):
                 inner_exit += [s for s, lab in nd.succ if lab == "F"]
         ok = all(cfg.must_pass(s, head, wb) for s in inner_exit) if inner_exit else ok
         it = wb[0].ast
-        full = isinstance(it.iter, ast.Call) and norm(it.iter.func) == "enumerate" and norm(it.iter.args[0]) == "variables"
+        full = (isinstance(it.iter, ast.Call) and norm(it.iter.func) in ("enumerate", "zip") and it.iter.args and
+                norm(it.iter.args[0]) == "variables") or norm(it.iter) == "variables"
         if ok and full:
             col.ok(where_of(oc), oc.rel, line_of(wb[0].ast), "minimize_oc: write-back of the new design",
                    "every non-converged path assigns all variable signals")
